@@ -762,7 +762,11 @@ func c14Wrapper_check(p *Prog, l *Ledger, w *c14Wrapper, consts map[int64]string
 						badO4 = append(badO4, fmt.Sprintf("%s: response type %d completes with %s, want %s", p.At(c.ins), matched, c.m, consts[matched]))
 					}
 				}
-				// no classification on this path: only an error-free operation may complete as success
+				// no classification on this path: only an error-free STREAM operation may complete as success; a unary call's
+				// outcome is always the configured classifier's (it may read an embedded status out of an error-free reply)
+				if w.Dir == "" && !hardCoded {
+					badO4 = append(badO4, fmt.Sprintf("%s: a unary call completes with %s without the configured response classifier having been asked", p.At(c.ins), c.m))
+				}
 				if c.m != "OnSuccess" {
 					badO4 = append(badO4, fmt.Sprintf("%s: unclassified path completes with %s", p.At(c.ins), c.m))
 				}
